@@ -57,11 +57,15 @@ ASSUMPTIONS = [
     "floats compared with |a-b| <= 1e-7*max(1,|a|,|b|)",
 ]
 BOUNDS = {
-    "quick": "lex: rows <= 2 items over 16 items (3 items over 5) x 20 layouts x 6 configs; rows: <= 2 lines over a "
-             "30-line menu x 2 endings x 4 IGNORE=c x 3 column configs; filt: 2 texts, all single filters, pairs "
-             "over a reduced menu; model: each $INPUT/$DATA shape pairwise; wr: <= 4 cells",
-    "thorough": "lex: rows <= 3 items over 16 items x 40 layouts x 6 configs; rows: <= 3 lines; filt: 4 texts x all "
-                "IGNORE pairs; model: full product of shapes; wr: <= 6 cells",
+    "quick": "lex: rows <= 2 items over 16 items (3 items over 5) x 20 delimiter layouts x 6 ($INPUT length, DROP, NULL) "
+             "configs; rows: <= 2 lines over a 30-line menu x 2 endings x 4 IGNORE=c x 3 column configs; filt: 3 texts x "
+             "2 column configs, all single IGNORE/ACCEPT filters over 8 operators x 6 value forms x 3 columns, IGNORE "
+             "pairs over a reduced menu; model: 18 $INPUT shapes x 5 texts, each IGNORE=c / NULL= / filter syntax once "
+             "plus pairs on one text; wr: frames <= 3 cells over 6 values, 2 x 2 over 4 values, 3 header and 3 base "
+             "model variants on <= 2 cells",
+    "thorough": "lex: rows <= 3 items over 16 items x 40 layouts x 6 configs; rows: <= 3 lines; filt: 4 texts x 15 "
+                "operators x NULL=1, all IGNORE pairs over 8 operators; model: full product 18 $INPUT x 9 IGNORE=c x 6 "
+                "NULL= x 19 filter syntaxes on 3 texts; wr: frames <= 5 cells over 6 values, 6 cells over 5 values",
 }
 
 # ============================================================================= alphabets
